@@ -33,7 +33,8 @@ META = {
                "mapper histories on the untouched DeviceInstanceTypeMapper (concrete keys from a small set, "
                "symbolic frame limited to those keys plus one absent value, symbolic type): look up, add, "
                "look up, clear, add, look up - with retry_decode of the first ambiguous result after every step; "
-               "another ambiguous and an unknown event are decoded before every retry"],
+               "another ambiguous and an unknown event are decoded before every retry; the same history with 18 "
+               "concrete frames"],
     "stubs": ["isinstance/int shims", "SymDict registries", "SymKeyDict as the mapper's dict in symbolic mode "
               "(case 'map' only; skipped with a note if the mapper no longer keeps a plain dict in _mapping)"],
     "outside": ["maps with more than one entry (lookups are independent per key)",
